@@ -340,15 +340,15 @@ example :
 /-! ## BLE: session keys never outlive the link they were negotiated on -/
 
 open HapVerif.BleSession in
-/-- the invariant: keys exist only for the link that is currently connected, and all traffic so far went out on the
-    link its keys were negotiated on -/
+/-- the invariant: keys exist only for the link that is currently connected, all traffic so far went out on the
+    link its keys were negotiated on, and keys - hence traffic - exist only for links on which a pair-verify ran -/
 def BleInv (s : BleSession.St) : Prop :=
   (∀ k, s.keys = some k → s.link = some k) ∧ (∀ l, s.link = some l → l < s.nextLink) ∧
-  ∀ p ∈ s.traffic, p.1 = p.2
+  (∀ p ∈ s.traffic, p.1 = p.2) ∧ (∀ k, s.keys = some k → k ∈ s.verifies) ∧ (∀ p ∈ s.traffic, p.2 ∈ s.verifies)
 
 open HapVerif.BleSession in
 theorem ble_step_inv (s : BleSession.St) (e : BleSession.Ev) (h : BleInv s) : BleInv (BleSession.step s e) := by
-  obtain ⟨h1, h2, h3⟩ := h
+  obtain ⟨h1, h2, h3, h4, h5⟩ := h
   cases hl : s.link with
   | none =>
     have hk : s.keys = none := by
@@ -357,31 +357,48 @@ theorem ble_step_inv (s : BleSession.St) (e : BleSession.Ev) (h : BleInv s) : Bl
       | some k => have := h1 k hk; rw [hl] at this; cases this
     cases e <;> simp only [BleSession.step, hl, hk]
     case connect =>
-      refine ⟨by simp [hk], ?_, h3⟩
+      refine ⟨by simp [hk], ?_, h3, by simp [hk], h5⟩
       intro l hl'
       simp only [Option.some.injEq] at hl'
       dsimp only
       omega
     all_goals first
-      | exact ⟨h1, h2, h3⟩
-      | exact ⟨by simp, by simp, h3⟩
+      | exact ⟨h1, h2, h3, h4, h5⟩
+      | exact ⟨by simp, by simp, h3, by simp, h5⟩
   | some l =>
     have hlt := h2 l hl
     cases hk : s.keys with
     | none =>
       cases e <;> simp only [BleSession.step, hl, hk]
       case verifyOk =>
-        refine ⟨?_, ?_, h3⟩
+        refine ⟨?_, ?_, h3, ?_, ?_⟩
         · intro k hk'
-          simp only [Option.some.injEq] at hk'
-          rw [← hk']
+          simp only [Option.some.injEq] at hk' ⊢
+          exact hk'
         · intro l' hl'
           simp only [Option.some.injEq] at hl'
           dsimp only
           omega
+        · intro k hk'
+          simp only [Option.some.injEq] at hk'
+          simp [hk']
+        · intro p hp
+          dsimp only at hp ⊢
+          exact List.mem_append_left _ (h5 p hp)
+      case verifyFail =>
+        refine ⟨?_, ?_, h3, ?_, ?_⟩
+        · intro k hk'; cases hk'
+        · intro l' hl'
+          simp only [Option.some.injEq] at hl'
+          dsimp only
+          omega
+        · intro k hk'; cases hk'
+        · intro p hp
+          dsimp only at hp ⊢
+          exact List.mem_append_left _ (h5 p hp)
       all_goals first
-        | exact ⟨h1, h2, h3⟩
-        | exact ⟨by simp, by simp, h3⟩
+        | exact ⟨h1, h2, h3, h4, h5⟩
+        | exact ⟨by simp, by simp, h3, by simp, h5⟩
     | some k =>
       have hkl : l = k := by
         have := h1 k hk
@@ -389,17 +406,29 @@ theorem ble_step_inv (s : BleSession.St) (e : BleSession.Ev) (h : BleInv s) : Bl
         simpa using this
       cases e <;> simp only [BleSession.step, hl, hk]
       case request =>
-        refine ⟨?_, ?_, ?_⟩
-        · intro k' hk'; simp only [Option.some.injEq] at hk'; rw [← hk', hkl]
+        refine ⟨?_, ?_, ?_, ?_, ?_⟩
+        · intro k' hk'; simp only [Option.some.injEq] at hk' ⊢; omega
         · intro l' hl'; simp only [Option.some.injEq] at hl'; dsimp only; omega
         · intro p hp
           simp only [List.mem_append, List.mem_singleton] at hp
           rcases hp with hp | rfl
           · exact h3 p hp
           · exact hkl
+        · intro k' hk'; simp only [Option.some.injEq] at hk'; rw [← hk']; exact h4 k hk
+        · intro p hp
+          simp only [List.mem_append, List.mem_singleton] at hp
+          rcases hp with hp | rfl
+          · exact h5 p hp
+          · exact h4 k hk
       all_goals first
-        | exact ⟨h1, h2, h3⟩
-        | exact ⟨by simp, by simp, h3⟩
+        | exact ⟨h1, h2, h3, h4, h5⟩
+        | exact ⟨by simp, by simp, h3, by simp, h5⟩
+
+open HapVerif.BleSession in
+theorem ble_run_inv (evs : List BleSession.Ev) (s : BleSession.St) (hs : BleInv s) : BleInv (BleSession.run s evs) := by
+  induction evs generalizing s with
+  | nil => exact hs
+  | cons e es ih => exact ih _ (ble_step_inv s e hs)
 
 open HapVerif.BleSession in
 /-- **On BLE every encrypted request goes out on the link on which its session keys were negotiated**, in every
@@ -408,13 +437,29 @@ open HapVerif.BleSession in
 theorem C01_ble_keys_bound_to_link (evs : List BleSession.Ev) :
     (∀ p ∈ (BleSession.run {} evs).traffic, p.1 = p.2) ∧
     (∀ k, (BleSession.run {} evs).keys = some k → (BleSession.run {} evs).link = some k) := by
-  have h : ∀ (evs : List BleSession.Ev) (s : BleSession.St), BleInv s → BleInv (BleSession.run s evs) := by
-    intro evs
-    induction evs with
-    | nil => intro s hs; exact hs
-    | cons e es ih => intro s hs; exact ih _ (ble_step_inv s e hs)
-  have := h evs {} ⟨by simp, by simp, by simp⟩
-  exact ⟨this.2.2, this.1⟩
+  have := ble_run_inv evs {} ⟨by simp, by simp, by simp, by simp, by simp⟩
+  exact ⟨this.2.2.1, this.1⟩
+
+open HapVerif.BleSession in
+/-- **No encrypted request ever goes out on a link on which no pair-verify (or pair-resume) was run**: whatever the
+    history, every request's link appears among the links a pair-verify attempt was made on - and that attempt
+    succeeded, since a failed one leaves no keys (`C01_ble_failed_verify_no_traffic`). -/
+theorem C01_ble_traffic_only_after_verify (evs : List BleSession.Ev) :
+    ∀ p ∈ (BleSession.run {} evs).traffic, p.1 ∈ (BleSession.run {} evs).verifies := by
+  have := ble_run_inv evs {} ⟨by simp, by simp, by simp, by simp, by simp⟩
+  intro p hp
+  rw [this.2.2.1 p hp]
+  exact this.2.2.2.2 p hp
+
+open HapVerif.BleSession in
+/-- a public operation against a peer that cannot complete pair-verify sends nothing, in whatever state it starts:
+    the traffic is unchanged (so an impostor never sees a request of the session), and there are no keys afterwards -/
+theorem C01_ble_failed_verify_no_traffic (evs : List BleSession.Ev) (hk : (BleSession.run {} evs).keys = none) :
+    (BleSession.op (BleSession.run {} evs) false).traffic = (BleSession.run {} evs).traffic ∧
+    (BleSession.op (BleSession.run {} evs) false).keys = none := by
+  generalize BleSession.run {} evs = s at hk
+  unfold BleSession.op
+  cases hl : s.link <;> simp [BleSession.step, hl, hk]
 
 open HapVerif.BleSession in
 /-- non-vacuity: verified on link 0, close with a raising disconnect, reconnect: the new link 1 has no keys until
